@@ -501,7 +501,7 @@ class Profile:
                  max_blocks=4, max_c=6, kmax=9, bn=True, pool=True, two_d_k=(1, 3, 5),
                  linear_tail=True, strides=(1, 2), dil=(1, 2, 3), cat_input=True,
                  conv2d_pad0=True, act_variants=True, min_blocks=1, first_conv=False,
-                 dropout=True, bridge=False):
+                 dropout=True, bridge=False, fixtures=False):
         self.__dict__.update(locals())
         del self.__dict__['self']
 
@@ -600,9 +600,44 @@ class _B:
         return self.act(t) if self.draw(st.booleans()) else t
 
 
+def _fixtures(family: str):
+    """Hand-written concat topologies that the series-parallel generator reaches only rarely
+    (nested channel concatenations, also reaching the output)."""
+    def conv(i, src, cout, **kw):
+        if family == '1d':
+            return dict({'id': i, 'op': 'conv1d', 'in': [src], 'k': 3, 'dil': 1, 'stride': 1,
+                         'pad': 'causal', 'cout': cout, 'bias': True, 'bn': False, 'groups': 1}, **kw)
+        return dict({'id': i, 'op': 'conv2d', 'in': [src], 'k': 3, 'p': 1, 'stride': 1, 'cout': cout,
+                     'bias': True, 'bn': False, 'groups': 1}, **kw)
+    inp = [[2, 9]] if family == '1d' else [[2, 5, 5]]
+    relu = lambda i, src: {'id': i, 'op': 'relu', 'in': [src], 'variant': 'mod'}   # noqa
+    cat = lambda i, ops: {'id': i, 'op': 'cat', 'in': ops, 'variant': 'pos'}       # noqa
+    out = []
+    # nested concatenation reaching the output: cat(relu(cat(c0, c1)), c2)
+    out.append([conv('n0', 'x', 4), conv('n1', 'x', 3), cat('n2', ['n0', 'n1']), relu('n3', 'n2'),
+                conv('n4', 'x', 2), cat('n5', ['n3', 'n4'])])
+    # the same, consumed by a layer
+    out.append(out[0] + [conv('n6', 'n5', 3)])
+    # three levels, with the network input as an operand, reaching the output
+    out.append([conv('n0', 'x', 3), cat('n1', ['n0', 'x']), conv('n2', 'n1', 2),
+                cat('n3', ['n1', 'n2']), relu('n4', 'n3'), conv('n5', 'n4', 3),
+                cat('n6', ['n4', 'n5'])])
+    # (a residual sum with a concatenation as operand is outside the supported patterns: the
+    # generator never builds one either, see DESIGN 6)
+    # concatenation of two concatenations, consumed by a layer
+    out.append([conv('n0', 'x', 2), conv('n1', 'x', 3), cat('n2', ['n0', 'n1']),
+                conv('n3', 'x', 2), cat('n4', ['n3', 'n0']), cat('n5', ['n2', 'n4']),
+                conv('n6', 'n5', 3)])
+    return [{'family': family, 'inputs': inp, 'nodes': nodes, 'out': nodes[-1]['id']}
+            for nodes in out]
+
+
 @st.composite
 def netspecs(draw, prof: Profile):
     p = prof
+    if p.fixtures and p.cat and draw(st.integers(0, 7)) == 0:
+        import copy as _copy
+        return _copy.deepcopy(draw(st.sampled_from(_fixtures(p.family))))
     if p.family == '1d':
         inp = [draw(st.integers(1, 4)), draw(st.integers(6, 16))]
     else:
